@@ -153,8 +153,8 @@ func runFreshCase(c *Ctx, name string, old, nw *lib.Build, o freshOpts) error {
 		}
 	}
 	cs := &lib.Case{Class: o.class, Nontrivial: len(o.rel) >= 2 || (len(o.rel) == 1 && o.rel[0] != "identical"),
-		Input:  map[string]interface{}{"old": old.Summary(), "new": nw.Summary(), "relations": o.rel, "compressions": compNames(o.comps), "sub": o.subkey},
-		Obs:    obs, Oracle: oracle}
+		Input: map[string]interface{}{"old": old.Summary(), "new": nw.Summary(), "relations": o.rel, "compressions": compNames(o.comps), "sub": o.subkey},
+		Obs:   obs, Oracle: oracle}
 	if o.model && first != nil && firstOut != nil {
 		d := lib.NewPathDict()
 		rops := make([]string, len(first.Series))
@@ -386,8 +386,8 @@ func c01Apply1(c *Ctx) error {
 			outB = nil
 		}
 		c.Out.Emit(&lib.Case{Group: "apply1", Class: fmt.Sprintf("apply1/%s/bs%d", class, bs), Nontrivial: inBounds && sp >= 1,
-			Input:  map[string]interface{}{"bs": bs, "sizes": sizes, "file": f, "blockIndex": bi, "blockSpan": sp},
-			Obs:    map[string]interface{}{"class": cls, "written": out.Len()}, Oracle: oracle,
+			Input: map[string]interface{}{"bs": bs, "sizes": sizes, "file": f, "blockIndex": bi, "blockSpan": sp},
+			Obs:   map[string]interface{}{"class": cls, "written": out.Len()}, Oracle: oracle,
 			Coq: fmt.Sprintf("($ID%%N, %s, %s, (%s, %s, %s), (%s, %s))", lib.CoqZ(int64(bs)), lib.CoqList(rl), lib.CoqZ(f), lib.CoqZ(bi), lib.CoqZ(sp),
 				lib.CoqZ(classCode(cls)), lib.CoqRle(outB))})
 	}
@@ -766,8 +766,8 @@ func runCraft(c *Ctx, name string, cf *craft, comp lib.Compression) error {
 	d := lib.NewPathDict()
 	os.RemoveAll(outDir)
 	c.Out.Emit(&lib.Case{Group: "craft", Class: "craft/" + cf.class, Nontrivial: len(cf.msgs) > 3,
-		Input:  map[string]interface{}{"old": cf.old.Summary(), "newFiles": fmt.Sprint(cf.files), "msgs": lib.MsgSummary(cf.msgs), "compression": comp.String()},
-		Obs:    map[string]interface{}{"class": cls, "msg": firstLine(msg)}, Oracle: oracle,
+		Input: map[string]interface{}{"old": cf.old.Summary(), "newFiles": fmt.Sprint(cf.files), "msgs": lib.MsgSummary(cf.msgs), "compression": comp.String()},
+		Obs:   map[string]interface{}{"class": cls, "msg": firstLine(msg)}, Oracle: oracle,
 		Coq: fmt.Sprintf("($ID%%N, %s, %s, %s, %s, %s, %s)", lib.CoqContainer(oldC, d), lib.CoqContainer(newC, d), coqRleList(oldContents(oldC, cf.old)),
 			lib.CoqMsgs(cf.msgs), lib.CoqZ(classCode(cls)), lib.CoqTree(got, d))})
 	return nil
